@@ -342,3 +342,92 @@ def expression(vk, cfg):
     else:
         A = coo.todense(form._form.assemble(vals))
     vk.ensures_eq("assemble==placed-sum", A, dense_spec(vk, spec, cells, dim, cells, dim, dim * rg.mesh.npoints, dim * rg.mesh.npoints))
+
+
+FORM_API = (
+    [dict(kind="mixed", sym=s, parallel=p) for s in (False, True) for p in (False, True)]
+    + [dict(kind="rectangular", parallel=p) for p in (False, True)]
+    + [dict(kind="single", sym=s, parallel=False) for s in (False, True)]
+    + [dict(kind="mixed-linear", parallel=p) for p in (False, True)]
+    + [dict(kind="update", parallel=False)]
+)
+
+
+@contract("C02", "form_api", configs=FORM_API)
+def form_api(vk, cfg):
+    """`Form(v=, u=)` (FormExpression -> Linear/BilinearFormExpression on Basis containers): a weak form written
+    with the expression API assembles to the same matrix / vector as the equivalent array form -- for a test
+    container different from the trial container (rectangular coupling matrix placed with the trial unknowns in
+    the columns), for mixed fields (upper-triangle list of weak forms, lower blocks are the transposes) with sym
+    True/False on a symmetric mixed weak form, parallel True/False, and after re-linking through
+    assemble(v=, u=)"""
+    from felupe import math as M
+    from felupe.assembly.expression import Basis, Form
+    from felupe.assembly.expression._expression import FormExpression
+    from felupe.assembly.expression._mixed import BilinearFormExpression, LinearFormExpression
+
+    for f in (FormExpression.__init__, FormExpression._init_or_update_forms, FormExpression.integrate, FormExpression.assemble, BilinearFormExpression.__init__, BilinearFormExpression.integrate, BilinearFormExpression.assemble, LinearFormExpression.__init__, LinearFormExpression.integrate, LinearFormExpression.assemble, Basis.__init__, Basis.__getitem__):
+        vk.real(f)
+    rg = OpaqueRegion(vk, CELLS, 2, NQ, name="v")
+    nc = CELLS.shape[0]
+    h, g, dV = rg.h, rg.dhdX, rg.dV
+    fu, fp = fem.Field(rg, dim=2), fem.Field(rg, dim=1)
+    nu, npp = 2 * rg.mesh.npoints, rg.mesh.npoints
+    par = cfg["parallel"]
+    C = vk.reals("C", (2, 2, 2, 2, NQ, nc))
+    B = vk.reals("B", (2, 2, NQ, nc))
+    rho = vk.reals("rho", (NQ, nc))
+    Cs = (C + np.einsum("ijkl...->klij...", C)) / 2  # the mixed weak form below is symmetric as a whole
+    a_uu = lambda v, u, **kw: M.ddot(v.grad, M.ddot(Cs, u.grad, mode=(4, 2)))
+    a_up = lambda v, u, **kw: M.ddot(v.grad, B) * u[0]
+    a_pp = lambda v, u, **kw: rho * v[0] * u[0]
+    Kuu = dense_spec(vk, ref_einsum("aJqc,iJkLqc,bLqc,qc->aibkc", g, Cs, g, dV), CELLS, 2, CELLS, 2, nu, nu)
+    Kup = dense_spec(vk, ref_einsum("aJqc,iJqc,bqc,qc->aibc", g, B, h, dV)[:, :, :, None, :], CELLS, 2, CELLS, 1, nu, npp)
+    Kpp = dense_spec(vk, ref_einsum("aqc,qc,bqc,qc->abc", h, rho, h, dV)[:, None, :, None, :], CELLS, 1, CELLS, 1, npp, npp)
+
+    def dense(run):
+        if vk.sym:
+            with coo.bound():
+                return coo.todense(run())
+        return coo.todense(run())
+
+    kind = cfg["kind"]
+    if kind == "mixed":
+        fc = fem.FieldContainer([fu, fp])
+        form = Form(v=fc, u=fc, dx=dV)(lambda: [a_uu, a_up, a_pp])
+        A = dense(lambda: form.assemble(v=fc, u=fc, parallel=par, sym=cfg["sym"]))
+        spec = np.block([[Kuu, Kup], [Kup.T, Kpp]])
+        vk.ensures_eq("Form(mixed)==blocks of the array form (lower blocks transposed)", A, spec)
+        if vk.sym:
+            vk.canary("Form(mixed): coupling block symmetrised", A, np.block([[Kuu, 0 * Kup], [0 * Kup.T, Kpp]]))
+    elif kind == "rectangular":
+        fv, fw = fem.FieldContainer([fp]), fem.FieldContainer([fu])
+        # a(q, u) = int q B : grad(u) dV: scalar test field, vector trial field
+        form = Form(v=fv, u=fw, dx=dV)(lambda: [lambda v, u, **kw: v[0] * M.ddot(B, u.grad)])
+        A = dense(lambda: form.assemble(v=fv, u=fw, parallel=par))
+        vk.ensures_eq("Form(v != u)==rectangular array form", A, Kup.T)
+        form2 = Form(v=fw, u=fv, dx=dV)(lambda: [a_up])
+        A2 = dense(lambda: form2.assemble(v=fw, u=fv, parallel=par))
+        vk.ensures_eq("Form(u, p)==rectangular array form", A2, Kup)
+        if vk.sym:
+            vk.canary("Form(v != u): square", A2, Kup + 1)
+    elif kind == "single":
+        fc = fem.FieldContainer([fu])
+        form = Form(v=fc, u=fc, dx=dV)(lambda: [a_uu])
+        A = dense(lambda: form.assemble(v=fc, u=fc, parallel=par, sym=cfg["sym"]))
+        vk.ensures_eq("Form(single)==array form", A, Kuu)
+        arr = IntegralForm([Cs], fc, dV, u=fc)
+        vk.ensures_eq("array form==placed sum", dense(lambda: arr.assemble()), Kuu)
+    elif kind == "mixed-linear":
+        fc = fem.FieldContainer([fu, fp])
+        form = Form(v=fc, dx=dV)(lambda: [lambda v, **kw: M.ddot(v.grad, B), lambda v, **kw: rho * v[0]])
+        A = dense(lambda: form.assemble(v=fc, parallel=par))
+        s0 = dense_spec(vk, ref_einsum("aJqc,iJqc,qc->aic", g, B, dV), CELLS, 2, nrow=nu)
+        s1 = dense_spec(vk, ref_einsum("aqc,qc,qc->ac", h, rho, dV)[:, None, :], CELLS, 1, nrow=npp)
+        vk.ensures_eq("Form(mixed, linear)==stacked array form", A, np.concatenate([s0, s1]))
+    else:
+        # a form created on one pair of containers and re-linked at assembly: the new v and the new u are used
+        fv, fw = fem.FieldContainer([fp]), fem.FieldContainer([fu])
+        form = Form(v=fw, u=fw, dx=dV)(lambda: [lambda v, u, **kw: v[0] * M.ddot(B, u.grad)])
+        A = dense(lambda: form.assemble(v=fv, u=fw))
+        vk.ensures_eq("Form.assemble(v=new, u=new)==rectangular array form", A, Kup.T)
